@@ -82,6 +82,9 @@ func genStorage(c *Ctx, groupBy bool) any {
 			sp.N = r.Range(3000, 6000)
 		}
 	}
+	if r.Chance(1, 4) {
+		sp.WeirdNames(r)
+	}
 	cs.Data.Spec = sp
 	// a seeded non-empty subset of the writers
 	for _, w := range writerKinds {
